@@ -47,7 +47,7 @@ def touched : Op → List Show
   | .linsertl v _ | .lappendl v | .lprependl v | .lswap v | .lcopy v | .lassign v => [.l v, .l (1 - v)]
   | .leq _ _ | .aeq _ _ => []
   | .lappendself v | .lprependself v | .linsertself v _ | .lassignself v => [.l v]
-  | .aappendself v | .aappendref v _ | .aresizeref v _ _ | .aassignself v | .aappendsub v _ _ => [.a v]
+  | .aappendself v | .aappendref v _ | .aresizeref v _ _ | .aassignself v | .aappendsub v _ _ | .aresized v _ => [.a v]
   | .lappend v _ | .lprepend v _ | .linsert v _ _ | .lremove v _ | .lremovev v _ | .lremoveFront v
   | .lremoveBack v | .lclear v | .lfind v _ | .lfront v | .lback v | .lsort v => [.l v]
   | .pswap v => [.p v, .p (1 - v)]
@@ -97,7 +97,7 @@ def parseOp (ws : List String) : Option Op :=
   | ["aassign", v] => do pure (.aassign (← v.toNat?))
   | ["areserve", v, n] => do pure (.areserve (← v.toNat?) (← n.toNat?))
   | ["aresize", v, n, x] => do pure (.aresize (← v.toNat?) (← n.toNat?) (← x.toInt?))
-  | ["aresized", v, n] => do pure (.aresize (← v.toNat?) (← n.toNat?) 0)     -- `resize(n)`: the default argument `T()` is 0
+  | ["aresized", v, n] => do pure (.aresized (← v.toNat?) (← n.toNat?))
   | ["aappend", v, x] => do pure (.aappend (← v.toNat?) (← x.toInt?))
   | ["aappenda", v] => do pure (.aappenda (← v.toNat?))
   | ["aappendn", v, xs] => do pure (.aappendn (← v.toNat?) (← parseInts xs))
